@@ -185,8 +185,54 @@ class C14(Prop):
         return case_strategy(WEIGHTS, 30 if tier == "quick" else 80, cfg=cfg, names=NAMES,
                              own_bias=2, policies=("DEFAULT", "EDIF"))
 
+    def fixed_cases(self, tier):
+        from vf import matrix
+        return matrix.bulk_cases() + matrix.shape_cases()
+
+    def run_family(self, res, case):
+        """enumerated families (vf/matrix.py): whenever the call is refused, nothing may have changed"""
+        from vf import matrix
+        import spydrnet as sdn
+
+        sdn.namespace_manager.default = "DEFAULT"
+        sc = matrix.build_shape(case["shape"]) if "shape" in case else matrix.build_bulk(case["bulk"])
+        U = ops.Universe()
+        U.absorb(sc["netlist"])
+        for x in sc.get("keep", []):
+            U.absorb(x)
+        U.refresh_outer()
+        S0 = snapshot(U)
+        parents = U.pool["netlist"] + U.pool["library"] + U.pool["definition"]
+        names = ["u0", "u1", "c0", "c1", "p0", "p1", "m0", "l0", "f0", "leaf", "d", "other"]
+        L0 = lookups(parents, names)
+        try:
+            sc["call"]()
+            exc = None
+        except Exception as e:  # noqa
+            exc = e
+        tag = "shape" if "shape" in case else "bulk-" + sc["kind"]
+        res.label(tag + "-family", tag + ("-refused" if exc else "-accepted"))
+        if exc is None:
+            return res
+        res.nontrivial = True
+        S1 = snapshot(U)
+        for comp in sorted(S0):
+            a, b = S0[comp], S1[comp]
+            changed = [k for k in a if a[k] != b.get(k, "<gone>")]
+            if changed:
+                res.violate("C14:%s-changed:%s:%s" % (comp, tag, type(exc).__name__),
+                            "family %r refused with %r; %d entries differ" % (
+                                case.get("shape") or case.get("bulk"), exc, len(changed)))
+                return res
+        if lookups(parents, names) != L0:
+            res.violate("C14:lookup-answer-changed:%s:%s" % (tag, type(exc).__name__),
+                        "family %r" % (case.get("shape") or case.get("bulk"),))
+        return res
+
     def run(self, case):
         res = Result()
+        if "shape" in case or "bulk" in case:
+            return self.run_family(res, case)
         U = build_universe(case)
         mon = RefusalMonitor(res)
         it = ops.Interpreter(U, [mon])
